@@ -326,6 +326,11 @@ def kept_events(evs):
         ("query_on_C", dict(C, kind="query_on", text="A[] g1 >= 0")),
         ("query_on_A_other_model", dict(A2, kind="query_on", text="E<> i == 1")),
         ("drop_A", {"kind": "drop", "slot": "A"}),
+        # calls that read nothing (the empty query every new model carries, an empty block), and a diagnosed block on another
+        # document under the same path
+        ("query_on_A_empty", dict(A, kind="query_on", text="")),
+        ("block_on_A_empty", dict(A, kind="block_on", part=P["S_EXPRESSION"], text="", xpath="/nta/queries/x")),
+        ("block_on_B_diagnosed", dict(B, kind="block_on", part=P["S_EXPRESSION"], text="i +\n nosuch", xpath="/nta/queries/x")),
     ]
     for name in ("xml_ok", "xml_via_fd", "xta_ok", "xml_syntax_error", "query_ok", "xml_old_syntax"):
         out.append((name, by[name]))
@@ -365,7 +370,7 @@ def main():
                         "seeds %s; all histories of length <= %d unpruned, then BFS to depth %d merging histories that leave identical "
                         "process-global state (parser statics, flex state, tracker, errno); every call compared with the same call "
                         "made first in a fresh process.  Alignment sweep of the position counter across 2^31 and 2^32 for every event.  Documents that stay "
-                        "alive between calls: all histories of length <= %d over 15 events (queries and expression blocks, accepted and diagnosed, against "
+                        "alive between calls: all histories of length <= %d over 18 events (queries and expression blocks, accepted and diagnosed, against "
                         "three kept documents read from XML and XTA, replacing and dropping a kept document, reads of other documents in between)."
                         % (n, [s for s, _ in SEEDS] + [WRAP_SEED[0]], L, DEPTH, 3 if t == "quick" else 4))
     rep.set_deadline(240 if t == "quick" else 2400)
